@@ -220,6 +220,7 @@ func compositeScenarios(tier string) []engine.Scenario {
 		name := fmt.Sprintf("composite/%s/%s", compSpecHP.String(), cp.name)
 		scs = append(scs, engine.Scenario{Name: name, Bound: -1, Fn: func(c *engine.Chooser) { compositeLeaf(c, name, compSpecHP, cp) }})
 	}
+	scs = append(scs, engine.Scenario{Name: "composite/defaults", Bound: -1, Fn: defaultsLeaf})
 	scs = append(scs, engine.Scenario{Name: "composite/doc-examples", Bound: -1, Fn: docExamplesLeaf})
 	return scs
 }
@@ -462,4 +463,63 @@ func docExamplesLeaf(c *engine.Chooser) {
 	}
 	c.Outcome("doc")
 	c.Count(44)
+}
+
+// defaultsLeaf: an optional argument left out must mean the documented default: comparison.NewEvaluator without a sign polynomial
+// and inverse.EvaluateFullDomainNew without one use DefaultCompositePolynomialForSign. Same input, same seed (the secret-key
+// bootstrapper re-encrypts): the result must be the SAME ciphertext as with the default passed explicitly.
+func defaultsLeaf(c *engine.Chooser) {
+	w := getCompWorld(c, compSpecHP)
+	which := c.ChooseFree(2, "circuit")
+	p := w.Params
+	n := w.slots
+	x := make([]complex128, n)
+	for j := range x {
+		x[j] = complex(-1+2*float64(j)/float64(n-1), 0)
+		if which == 1 {
+			x[j] = complex(0.25+0.75*float64(j)/float64(n-1), 0) // inverse: [2^-2, 1], signs alternate
+			if j%2 == 1 {
+				x[j] = -x[j]
+			}
+		}
+	}
+	name := []string{"comparison.NewEvaluator/default-sign-polynomial", "inverse.EvaluateFullDomainNew/default-sign-polynomial"}[which]
+	c.Note("%s", name)
+	c.Cover("composite", "default="+name)
+	def := minimax.NewPolynomial(comparison.DefaultCompositePolynomialForSign)
+	run := func(explicit bool) (out *rlwe.Ciphertext, err error, pan interface{}) {
+		uni.Seed(c, "defaults", name) // identical randomness for both runs
+		ct := w.Encrypt(x, p.LogMaxSlots(), p.MaxLevel(), p.DefaultScale())
+		ev := w.tmpl.ShallowCopy()
+		mm := minimax.NewEvaluator(p, ev, bootstrapping.NewSecretKeyBootstrapper(p, w.Sk))
+		_, pan = uni.Try(func() error {
+			switch {
+			case which == 0 && explicit:
+				out, err = comparison.NewEvaluator(p, mm, def).Sign(ct)
+			case which == 0:
+				out, err = comparison.NewEvaluator(p, mm).Sign(ct)
+			case explicit:
+				out, err = inverse.NewEvaluator(p, mm).EvaluateFullDomainNew(ct, -2, 0, def)
+			default:
+				out, err = inverse.NewEvaluator(p, mm).EvaluateFullDomainNew(ct, -2, 0)
+			}
+			return nil
+		})
+		return
+	}
+	oe, ee, pe := run(true)
+	od, ed, pd := run(false)
+	sig := "C13/composite/default/" + name
+	switch {
+	case pe != nil || ee != nil:
+		c.Fail(sig+"/explicit-failed", "%s with the default passed explicitly: %v %v", name, ee, pe)
+	case pd != nil:
+		c.Fail(sig+"/panic", "%s: panic: %v", name, pd)
+	case ed != nil:
+		c.Fail(sig+"/error", "%s: %v", name, ed)
+	case !od.Equal(oe):
+		c.Fail(sig+"/differs", "%s: result differs from the one with DefaultCompositePolynomialForSign passed explicitly", name)
+	}
+	c.Outcome("defaults", name)
+	c.Count(n)
 }
